@@ -21,7 +21,7 @@ def one(args):
     base = Ctx(prop, prog)
     run_rules(mod, base)
     bk = {f.key() for f in base.findings}
-    v = all_variants(prop, mod)[idx]
+    v = all_variants(prop, mod, with_private=True)[idx]
     try:
         p2 = _apply(prog, v)
         if p2 is None:
@@ -46,7 +46,7 @@ def main():
     jobs = []
     for p in props:
         mod = load_rules(p)
-        for i, v in enumerate(all_variants(p, mod)):
+        for i, v in enumerate(all_variants(p, mod, with_private=True)):
             if v.name.startswith("auto:"):
                 jobs.append((p, i))
     tally = {}
